@@ -2,7 +2,7 @@ import H2T.Props.C06
 import H2T.Props.C17
 import H2T.Props.C20
 import H2T.Lemmas.WrapInv
-import H2T.Lemmas.RenderTotal
+import H2T.Lemmas.TableTotal
 
 /-! # C01 — rendering is total: never panics, never hangs
 
@@ -19,11 +19,15 @@ recursive `Drop`/`Clone` of deep trees, selector recursion and the exponential d
 backtracking are searched for by isolated child-process runs and are known findings.
 **Whole-run theorems** (section "the whole renderer"): the wrap layer is total in every mode (`text_layer_total`: any
 characters, any white-space mode, any tags, with or without overflow — hard wrap, tab and pending-whitespace loops have
-enough fuel, no `unwrap` of a missing space tag, no underflow), and rendering a **table-free** tree is total for every
-configuration, decorator and width (`render_total_table_free`; the `pre_depth` counter cannot underflow because the
-programs `compile` emits are balanced: `Balance.compile_frame`).  The table frames (column index bounds, the
-"previous line is a rule" expectation of border collapsing) are not yet proved and remain covered by correspondence:
-the model reports `panic`/`hang` as outcome classes and the implementation must agree on every generated case. -/
+enough fuel, no `unwrap` of a missing space tag, no underflow), and **rendering any render tree is total** for every
+configuration, decorator and width (`render_total`): the `pre_depth` counter cannot underflow because the programs
+`compile` emits are balanced (`Balance.compile_frame`); column allocation always returns; stacked rows are total;
+border collapsing always finds the previous line it expects — with borders the last line before a row is a rule, without
+borders no cell ever holds a rule; column indices stay in bounds under `tableOk` (every row's cells lie inside the
+table's `ncols` columns — what `RenderTable::new` computes; the driver evaluates `tableOk` on every tree `build`
+produces, so the hypothesis is measured on every correspondence case).  DOM → render tree (`build`) and the CSS parser
+are outside `render_total`; they are tied by correspondence, where the model reports `panic`/`hang` as outcome classes
+and the implementation must agree on every generated case. -/
 
 namespace H2T.C01
 
@@ -161,6 +165,21 @@ theorem render_total_table_free (cfg : Cfg) (d : Deco) (w : Nat) (tree : RNode) 
     ∀ e, renderTree cfg d w tree = .error e → e = .tooNarrow :=
   renderTree_total_noTable cfg d w tree h
 
+/-- **rendering any tree is total** (tables included): lines or `TooNarrow`, for every configuration, decorator and
+    width, provided every table's cells lie inside its columns -/
+theorem render_total (cfg : Cfg) (d : Deco) (w : Nat) (tree : RNode) (h : tableOk tree = true) :
+    ∀ e, renderTree cfg d w tree = .error e → e = .tooNarrow :=
+  renderTree_total cfg d w tree h
+
+theorem render_no_panic_no_hang (cfg : Cfg) (d : Deco) (w : Nat) (tree : RNode) (h : tableOk tree = true) :
+    (∀ s, renderTree cfg d w tree ≠ .error (.panic s)) ∧ (∀ s, renderTree cfg d w tree ≠ .error (.hang s)) := by
+  constructor <;> intro s hs <;> have := render_total cfg d w tree h _ hs <;> simp at this
+
+/-- the hypothesis is necessary: a cell outside the table's columns makes the model panic at the `col_sizes` index
+    (in the library `RenderTable::new` rules this out) -/
+example : (match renderTree {} Deco.plain 20 (.table {} [.row {} [.cell {} 1 [.text {} (strCh "a")], .cell {} 1 [.text {} (strCh "b")]]] 1) with
+    | .error (.panic _) => true | _ => false) = true := by decide +kernel
+
 /-- in particular the outcome is never a panic or a hang -/
 theorem render_table_free_no_panic_no_hang (cfg : Cfg) (d : Deco) (w : Nat) (tree : RNode) (h : noTable tree = true) :
     (∀ s, renderTree cfg d w tree ≠ .error (.panic s)) ∧ (∀ s, renderTree cfg d w tree ≠ .error (.hang s)) := by
@@ -178,6 +197,13 @@ example :
     let tree : RNode := .box {} (.ol (-1)) [.box {} .li [.box { ws := some .pre, pre := true } .block [.text {} (strCh " ccc hello \n x   ")]]]
     noTable tree = true ∧ (match renderTree { minWrap := 0 } Deco.rich 4 tree with | .error .tooNarrow => true | _ => false) = true ∧
     (renderTree { minWrap := 0 } Deco.rich 5 tree).toOption.map (·.length) = some 10 := by
+  decide +kernel
+/-- a table with a colspan row, a nested table and a link satisfies `tableOk` and renders, with and without borders -/
+example :
+    let tree : RNode := .table {} [.row {} [.cell {} 1 [.text {} (strCh "aa")], .cell {} 1 [.table {} [.row {} [.cell {} 1 [.text {} (strCh "x")], .cell {} 1 [.text {} (strCh "y")]]] 2]],
+                                   .row {} [.cell {} 2 [.text {} (strCh "cccc dddd")]]] 2
+    tableOk tree = true ∧ (renderTree {} Deco.plain 12 tree).toOption.isSome = true ∧
+    (renderTree { drawBorders := false } Deco.plain 12 tree).toOption.isSome = true := by
   decide +kernel
 
 end H2T.C01
